@@ -26,8 +26,15 @@ TCorr == /\ Ev.e = "Corr" /\ Ev.o = "ret"
          /\ Ev.psym = TRUE /\ Ev.prange = TRUE
          /\ Ev.perr_milli <= 1000
 
+(* Spearman on samples of several hundred points (31-bit safe up to n = 1000) *)
+TSpearman == /\ Ev.e = "Spearman" /\ Ev.exact = TRUE
+             /\ Len(Ev.x) <= 1000
+             /\ Ev.sq = SpearmanNum(Ev.x, Ev.y) /\ Ev.sq2 = Ev.sq
+(* long samples: rho, tau, r against O(n^2) long-double definitions (for permutations Pearson r = rho) *)
+TCorrBig == /\ Ev.e = "CorrBig" /\ Ev.range = TRUE /\ Ev.err_milli <= 1000
+
 Next == /\ l <= Len(Log)
-        /\ (TSort \/ TMedian \/ TMedfilt \/ TMedianFilter \/ TCorr) = TRUE
+        /\ (TSort \/ TMedian \/ TMedfilt \/ TMedianFilter \/ TCorr \/ TSpearman \/ TCorrBig) = TRUE
         /\ l' = l + 1
 Spec == Init /\ [][Next]_l
 Furthest == IF l > TLCGet(1) THEN TLCSet(1, l) ELSE TRUE
